@@ -11,9 +11,8 @@
 (*         find_all = Visitor = CombinedScan = per-node matching in         *)
 (*         document order; overlap-free visit = outermost matches           *)
 (*  I    : verdict/env = Eval("impl"), potential kinds = PK; the secondary   *)
-(*         labels of every match = Labels!LabelsOf("I")                     *)
-(*  ext  : the labels name the nodes the relational rules selected          *)
-(*         (LabelsOf("P")) - not a listed property, reported as extension   *)
+(*         labels of every match = Labels!LabelsOf("P"), the nodes the      *)
+(*         relational rules selected (drift `labels` otherwise)             *)
 (***************************************************************************)
 EXTENDS RuleGen, Labels, Json, IOUtils, TLC
 
@@ -84,9 +83,9 @@ Drift(r) ==
          \cup (IF PK(U, r.rule).any = r.pk.any /\ (~r.pk.any => PK(U, r.rule).set = ToSet(r.pk.set)) THEN {} ELSE {"potential_kinds"})
          \* secondary labels (judged where the oracle of the pattern atoms agrees, so that Eval("clean") is the code's verdict)
          \cup (IF ~OracleAgrees(U0, tree) \/ ~(\A n \in ToSet(r.hits) : Eval("clean", U, T, r.rule, n, EmptyEnv).ok) THEN {}
-               ELSE (IF \A n \in ToSet(r.hits) : LabelsOf("I", U, T, r.rule, n, EmptyEnv) = LabelsRec(r, n) THEN {} ELSE {"labels"})
-                    \cup (IF \A n \in ToSet(r.hits) : LabelsOf("P", U, T, r.rule, n, EmptyEnv) = LabelsRec(r, n) THEN {}
-                          ELSE {"ext:secondary-label-is-not-the-node-the-relational-rule-selected"}))
+               ELSE IF \A n \in ToSet(r.hits) : LabelsOf("P", U, T, r.rule, n, EmptyEnv) = LabelsRec(r, n) THEN {}
+               ELSE IF \A n \in ToSet(r.hits) : LabelsOf("pre", U, T, r.rule, n, EmptyEnv) = LabelsRec(r, n)
+                    THEN {"labels:the-node-the-sub-rule-returned-as-before-fix-7f25c3d"} ELSE {"labels"})
 
 Init == l = 1 /\ pFail = <<>>
 
